@@ -2,7 +2,7 @@
 //! case:   <shards> <cap|0> <ttl|0> <tti|0>  then ops
 //!           I k v c | T k v c d | A d | G k | P k
 //!           IT | IB n | IC n d K | SD | ST n | SC n d K | IS | AS
-//!           SN gap rtti | M | C
+//!           SN gap rtti | SB gap rttl rtti | M | C
 //! output: one token group per op, joined by " ; " (same format as ocaml/eng_iter.ml)
 //! time: the cache clock is virtual (hook verif_time), 1 tick = 1 ms, starts at 1000.
 use fibre_cache::policy::lru::LruPolicy;
@@ -208,8 +208,13 @@ fn run_case(toks: Vec<String>, tx: std::sync::mpsc::Sender<Option<String>>) {
           }
           (1, show_items(v), None)
         }
-        "SN" => {
-          let (gap, rtti) = (num(toks[i + 1]), num(toks[i + 2]));
+        "SN" | "SB" => {
+          // SN gap rtti: restoring builder without time_to_live; SB gap rttl rtti: with one
+          let (adv, gap, rttl, rtti) = if toks[i] == "SN" {
+            (3, num(toks[i + 1]), 0, num(toks[i + 2]))
+          } else {
+            (4, num(toks[i + 1]), num(toks[i + 2]), num(toks[i + 3]))
+          };
           let snap = cache.to_snapshot();
           let bytes = bincode::serialize(&snap).expect("bincode serialize");
           let back: CacheSnapshot<u64, u64> = bincode::deserialize(&bytes).expect("bincode deserialize");
@@ -236,9 +241,9 @@ fn run_case(toks: Vec<String>, tx: std::sync::mpsc::Sender<Option<String>>) {
             back
           };
           // shards/capacity come from the snapshot; policy factory and hasher as for the original
-          match builder(1, cap, 0, rtti).build_from_snapshot(back) {
-            Ok(c) => (3, s, Some(c)),
-            Err(e) => (3, format!("{s} RESTORE-ERROR {e:?}"), None),
+          match builder(1, cap, rttl, rtti).build_from_snapshot(back) {
+            Ok(c) => (adv, s, Some(c)),
+            Err(e) => (adv, format!("{s} RESTORE-ERROR {e:?}"), None),
           }
         }
         "M" => {
